@@ -220,15 +220,16 @@ def time_dependent_rates(ctx):
         subs.update({ps[n]: v for n, v in spec["params"].items()})
         subs[t] = tv
         Jt = np.array([[float(sympy.diff(f[si], sym[sj]).subs(subs)) for sj in sl] for si in sl])
-        for method in METHODS:
-            tol = {"fourth_order_central_difference": 1e-6, "central_difference": 1e-3}.get(method, 5e-2)
+        for method in list(METHODS) + [None]:
+            # (method=None, as a wrapper with its own optional `method` argument passes it on, means the documented default)
+            tol = {"fourth_order_central_difference": 1e-6, "central_difference": 1e-3, None: 1e-6}.get(method, 5e-2)
             for via in ("module", "object"):
                 case = {"scenario": "time-dependent rate", "time": tv, "method": method, "via": via}
                 ctx.begin_case(case)
                 J = np.array(py_get_jacobian(M, x.copy(), time=tv, method=method) if via == "module" else sa.compute_J(x.copy(), time=tv, method=method))
                 ctx.evaluated()
                 if np.max(np.abs(J - Jt)) > tol:
-                    ctx.violation("jacobian/time-dependent/" + method, "at t = %g: max |J - analytic| = %g (tolerance %g)" % (tv, float(np.max(np.abs(J - Jt))), tol),
+                    ctx.violation("jacobian/time-dependent/" + str(method), "at t = %g, method=%s: max |J - analytic| = %g (tolerance %g)" % (tv, method, float(np.max(np.abs(J - Jt))), tol),
                                   dict(case, J=J.tolist(), analytic=Jt.tolist()))
                     return
                 for pname in spec["params"]:
@@ -237,12 +238,12 @@ def time_dependent_rates(ctx):
                     ctx.evaluated()
                     Zt = np.array([float(sympy.diff(f[si], ps[pname]).subs(subs)) for si in sl])
                     if np.max(np.abs(Z - Zt)) > tol * 3:
-                        ctx.violation("sensitivity/time-dependent/" + method, "at t = %g: d f / d %s = %s, analytic %s (tolerance %g)" % (tv, pname, Z.tolist(), Zt.tolist(), tol * 3),
+                        ctx.violation("sensitivity/time-dependent/" + str(method), "at t = %g, method=%s: d f / d %s = %s, analytic %s (tolerance %g)" % (tv, method, pname, Z.tolist(), Zt.tolist(), tol * 3),
                                       dict(case, param=pname))
                         return
                 now = {n: float(v) for n, v in dict(M.get_parameter_dictionary()).items()}
                 if any(now[n] != float(v) for n, v in spec["params"].items()):
-                    ctx.violation("params-changed/time-dependent/" + method, "the analysis at t = %g changed the model's parameters: %s" % (tv, now), case)
+                    ctx.violation("params-changed/time-dependent/" + str(method), "the analysis at t = %g changed the model's parameters: %s" % (tv, now), case)
                     return
                 ctx.count("time_dependent_cases")
 
